@@ -135,8 +135,46 @@ func chansMergeProducers(sizes []int) Scenario {
 	}}
 }
 
-func replicate(n int, caps []int) Scenario {
+// chans.Merge given the same input channel twice (plus one other input): every value is still
+// delivered exactly once and Merge finishes when both are closed.
+func chansMergeSameInputTwice() Scenario {
+	return Scenario{"chansMerge/same-input-twice", func() {
+		a := make(chan int, 3)
+		a <- 0
+		a <- 1
+		b := make(chan int, 2)
+		b <- 10
+		out := make(chan int)
+		var got []int
+		var wg sync.WaitGroup
+		wg.Add(2)
+		go func() {
+			defer wg.Done()
+			for v := range out {
+				got = append(got, v)
+			}
+		}()
+		go func() {
+			defer wg.Done()
+			close(b)
+			close(a)
+		}()
+		chans.Merge[int](out, a, b, a)
+		close(out)
+		wg.Wait()
+		checkInterleaving("chans.Merge", got, [][]int{{0, 1}, {10}})
+		hx.Outcome("%v", got)
+	}}
+}
+
+func replicate(n int, caps []int) Scenario { return replicateX(n, caps, false) }
+
+// dupFirst: the first destination is listed twice, so it receives every value twice.
+func replicateX(n int, caps []int, dupFirst bool) Scenario {
 	name := fmt.Sprintf("replicate/n=%d/dstCaps=%v", n, caps)
+	if dupFirst {
+		name += "/first-destination-listed-twice"
+	}
 	return Scenario{name, func() {
 		src := make(chan int, n)
 		var vals []int
@@ -168,14 +206,24 @@ func replicate(n int, caps []int) Scenario {
 			}
 			close(src)
 		}()
+		if dupFirst {
+			dsts = append(dsts, dsts[0])
+		}
 		chans.Replicate(src, dsts...)
 		for _, d := range all {
 			close(d)
 		}
 		wg.Wait()
 		for i := range gots {
-			if fmt.Sprint(gots[i]) != fmt.Sprint(vals) && !(len(vals) == 0 && len(gots[i]) == 0) {
-				hx.Fail("replicate", "destination %d received %v, source was %v", i, gots[i], vals)
+			want := vals
+			if dupFirst && i == 0 {
+				want = nil
+				for _, v := range vals {
+					want = append(want, v, v)
+				}
+			}
+			if fmt.Sprint(gots[i]) != fmt.Sprint(want) && !(len(want) == 0 && len(gots[i]) == 0) {
+				hx.Fail("replicate", "destination %d received %v, want %v (source %v)", i, gots[i], want, vals)
 			}
 		}
 		hx.Outcome("%v", gots)
@@ -355,6 +403,13 @@ func All() []Scenario {
 	for _, p := range [][]int{{0, 1, 2, 3, 4}, {4, 3, 2, 1, 0}, {2, 0, 4, 1, 3}, {1, 2, 3, 4, 0}} {
 		out = append(out, chansMergeScripted([]int{1, 1, 1, 1, 1}, p))
 	}
+	// many inputs (beyond any small fixed number a special path could be written for)
+	out = append(out,
+		chansMergeScripted([]int{1, 1, 1, 1, 1, 1, 1, 1, 1}, []int{0, 1, 2, 3, 4, 5, 6, 7, 8}),
+		chansMergeScripted([]int{1, 0, 1, 0, 1, 0, 1, 0, 1, 1}, []int{9, 8, 7, 6, 5, 4, 3, 2, 1, 0}),
+		chansMergeSameInputTwice(),
+		replicateX(2, []int{1}, true), replicateX(1, []int{0, 1}, true),
+	)
 	out = append(out, chansMergeProducers([]int{1, 1}), chansMergeProducers([]int{2, 1}), chansMergeProducers([]int{1, 1, 1}))
 	out = append(out, replicate(2, []int{0}), replicate(2, []int{0, 1}), replicate(0, []int{0}), replicate(2, nil), replicate(3, []int{1, 0}))
 	e := sx.Step{Err: sx.ErrSrc}
